@@ -9,6 +9,8 @@ func init() {
 			ruleHostPorts(c, "C14.R1")
 			c.Rule("C14.R6", "failure clean-up closes only own sockets; port file removed only after a successful clean", 2)
 			ruleHostPortOwnership(c, "C14.R6")
+			c.Rule("C14.R7", "port file before iptables; producers and remover of KUBE-HOSTPORTS rules agree on the port fields", 2)
+			rulePortRecordFirst(c, "C14.R7")
 			c.Rule("C14.R2", "port mapping pairing in the request handler", 3)
 			ruleRequestPortMapping(c, "C14.R2")
 			c.Rule("C14.R4", "podPortMap only under the handler mutex", 2)
